@@ -23,7 +23,7 @@ PROP = Prop(
     'C13', 'A non-zero score is a promise the guesser keeps',
     functions=[ol.SC + '.parse', (sc.PS + '.parse', sc.install)],
     lemmas=lambda: ol.oks_mono.lemmas(),
-    effects=score_frame,
+    effects=effects.combine(score_frame, effects.state_frame_for('C13', ['lib_scorer/pcfg_password_scorer.py', 'lib_scorer/omen_scorer.py', 'lib_scorer/grammar_io.py', 'lib_trainer/detection_rules/multiword_detector.py'])),
     level='other',
     replay=script_replay('replay/score.py', default_fn='C13'),
     bounded=[Bounded('C13.bounded.score', 'replay/score.py', args=['--fn', 'C13'],
